@@ -11,21 +11,39 @@ namespace Pelite.Pe
 /-- string enumeration: fuel `len + 2` suffices and at most `len` strings are reported -/
 theorem C03_strings (bytes : Bytes) (cfg : Strings.Config) (hm : 1 ≤ cfg.minLen) (hn : 1 ≤ cfg.minLenNul) :
     ∃ fs, Strings.enumAll bytes cfg (bytes.size + 2) 0 = .ok fs ∧ fs.length ≤ bytes.size := by
-  sorry
+  obtain ⟨fs, h, hmem, hpw⟩ := Strings.C20_enumerate_exact bytes cfg hm hn
+  refine ⟨fs, h, ?_⟩
+  have := Strings.length_le_of_pairwise bytes.size fs 0
+    (fun f hf => by
+      obtain ⟨h1, h2, -⟩ := (hmem f).1 hf
+      exact ⟨Nat.zero_le _, h1, h2⟩) hpw
+  omega
 
 /-- relocation blocks: at most `len / 8` blocks, each with at most `len / 2` entries -/
 theorem C03_reloc_blocks (data : Bytes) :
     (Relocs.blocks data).length ≤ data.size / 8 ∧ ∀ b ∈ Relocs.blocks data, 2 * b.nwords ≤ data.size := by
-  sorry
+  exact ⟨Relocs.C14_blocks_count data, fun b hb => Relocs.nwords_le hb⟩
 
 /-- sentinel scans: the loop runs at most `window / size + 1` iterations (fuel `window + 2` suffices) -/
 theorem C03_sentinel_scan (v : View) (a : Addr) (size align sentinel : Nat) (hs : 1 ≤ size) :
     v.dervaSliceS a size align sentinel ≠ .diverge := by
-  sorry
+  cases hat : v.at a 0 align with
+  | ok s => exact (C05_derva_slice_s v a size align sentinel hs s hat).2.2
+  | diverge => exact absurd hat (v.at_ne_diverge a 0 align)
+  | _ =>
+    unfold View.dervaSliceS View.dervaSliceF
+    rw [hat]
+    intro h
+    cases h
 
 /-- section lookups visit each of the (at most 96) section headers once -/
 theorem C03_section_count (f : Fmt) (k : Kind) (img : Img) (v : View) (h : fromBytes f k img = .ok v) :
     v.secs.length ≤ 96 := by
-  sorry
+  obtain ⟨ha, rfl⟩ := (fromBytes_ok_iff _ _ _ _).1 h
+  unfold Accept at ha
+  dsimp only at ha
+  show (sections img.bytes).length ≤ 96
+  rw [C07_sections_length]
+  exact ha.2.2.2.2.2.2.2.2.2.2.2.1
 
 end Pelite.Pe
